@@ -553,4 +553,72 @@ def sdIsCoordVar (f : File) (i : Nat) : File × Out :=
 def sdFileInfo (f : File) : File × Out :=
   if !f.isOpen then (f, .fail) else (f, .items [.int f.vars.length, .int f.gattrs.length])
 
+/-! ## write requests (C14: read-only access)
+
+Every SD entry point of this model that asks for something to be stored, with its arguments.  `Mut.apply` is the call.
+`sdSetDimNameLate` is `SDsetdimname` with the `NC_RDWR` test placed AFTER the "name in use" loop (a plausible re-ordering
+of the validation steps); `sdSetAttrLate` is `SDsetattr` with the test placed AFTER the attribute-list lookup (the order
+`mfsd.c` had before repair c23f180).  They exist only so that `H4.Props.C14SD` can show that the position of the test matters. -/
+
+inductive Mut
+  | create (name : Bytes) (nt : Nat) (sizes : List Nat)
+  | setAttr (o : Obj) (name : Bytes) (nt : Nat) (count : Int) (val : Bytes)
+  | setDataStrs (i : Nat) (l u fm c : Option Bytes)
+  | setCal (i : Nat) (cal cale ioff ioffe nt : Bytes)
+  | setRange (i : Nat) (pmax pmin : Bytes)
+  | setFill (i : Nat) (val : Bytes)
+  | setDimName (slot : Nat) (name : Bytes)
+  | setDimStrs (slot : Nat) (l u fm : Option Bytes)
+  | setDimScale (slot count nt : Nat) (buf : Bytes)
+deriving Repr
+
+def Mut.apply (f : File) : Mut → File × Out
+  | .create n nt sz => sdCreate f n nt sz
+  | .setAttr o n nt c v => sdSetAttr f o n nt c v
+  | .setDataStrs i l u fm c => sdSetDataStrs f i l u fm c
+  | .setCal i a b c d e => sdSetCal f i a b c d e
+  | .setRange i mx mn => sdSetRange f i mx mn
+  | .setFill i v => sdSetFill f i v
+  | .setDimName s n => sdSetDimName f s n
+  | .setDimStrs s l u fm => sdSetDimStrs f s l u fm
+  | .setDimScale s c nt b => sdSetDimScale f s c nt b
+
+/-- a session of write requests: final state and the result of every call -/
+def runMuts (f : File) : List Mut → File × List Out
+  | [] => (f, [])
+  | m :: t =>
+    let r := m.apply f
+    let rest := runMuts r.1 t
+    (rest.1, r.2 :: rest.2)
+
+/-- `SDsetdimname` with the read-only test moved below the argument validation and the "name in use" loop -/
+def sdSetDimNameLate (f : File) (slot : Nat) (name : Bytes) : File × Out :=
+  if !f.isOpen then (f, .fail) else
+  match f.slots[slot]?, dimOf f slot with
+  | some o, some d =>
+    let other := f.slots.find? fun o' => o' != o && (f.objs.getD o' default).name == name
+    match other with
+    | some o' =>
+      if d.size != (f.objs.getD o' default).size then (f, .fail)
+      else ({ f with slots := f.slots.set slot o', dirty := true }, .ok)      -- leaves before the test below
+    | none =>
+      if !f.rdwr then (f, .fail) else
+      if name.length > H4_MAX_NC_NAME then (f, .fail)
+      else ({ f with objs := f.objs.set o { d with name := name }, dirty := true }, .ok)
+  | _, _ => (f, .fail)
+
+/-- `SDsetattr` with the read-only test below `SDIapfromid` (the order before the repair) -/
+def sdSetAttrLate (f : File) (o : Obj) (name : Bytes) (nt : Nat) (count : Int) (val : Bytes) : File × Out :=
+  if !f.isOpen then (f, .fail) else
+  if nt / DFNT_NATIVE % 2 == 1 then (f, .fail) else
+  if !argsOk nt count then (f, .fail) else
+  match apFromId f o with
+  | (f1, none) => (f1, .fail)
+  | (f1, some loc) =>
+    if name.length > VSNAMELENMAX then (f1, .fail) else
+    if !f1.rdwr then (f1, .fail) else
+    match sdiPut (attrsAt f1 loc) { name := name, nt := nt, count := count.toNat, val := val } with
+    | none => (f1, .fail)
+    | some l' => ({ setAttrsAt f1 loc l' with dirty := true }, .ok)
+
 end H4.AttrSD
